@@ -7,13 +7,22 @@ carrier and every deviation-flag setting unless stated otherwise:
 * `calc_structure_preserved` when no operator has two numeric operands (nothing can fold) the
                              specification model returns the source tree minus grouping
                              parentheses: same operands, same operators, same nesting
-NOT proved (kept visible): that the PRINTED text of the specification model re-reads to the
-same tree (print/parse round trip) — checked per generated case by the reference reader in
-props/C30.py; the three refutations below show it is false for the code as it is.
+* `print_parses`, `calc_structure_preserved_text`  the tokens the specification printer writes
+                             derive exactly the printed value in the left-recursive CSS calc grammar
+                             (`Parses`), for values without a same-precedence right operand of `+`/`*`
+NOT proved (kept visible): (1) unambiguity of the grammar `Parses` / an executable reader with
+`read (toks v) = some v`; (2) `printV spec showQ v = render (toksV v)` (the character text is the
+concatenation of the token texts, operators written ` op `) — `toksV` was written line by line
+after `printV`, the equation is true by inspection but its proof got stuck on auxiliary-matcher
+mismatches; (3) right operands of `+`/`*` of the same precedence class (`a + (b + c)` is printed
+`a + b + c`, equal in value, another tree).  All three are covered per generated case by the
+reference reader in props/C30.py.  The refutations below show the round trip is false for the
+code before the binop repairs.
 -/
 import RsassModel.Calc.Model
 import RsassModel.Calc.Lemmas
 import RsassModel.Calc.IntInst
+import RsassModel.Calc.LemmasRead
 namespace Calc
 open MathFn
 
@@ -112,6 +121,90 @@ theorem shape_same_leaves_ops (t : T α) :
   | bin op a b iha ihb => simp [shape, leavesV, opsV, leavesT, opsT, iha.1, iha.2, ihb.1, ihb.2]
 
 end parametric
+
+/-! ### the printed calculation re-reads to the same tree (token level) -/
+section readback
+variable {α : Type} [AOps α]
+open MOps AOps
+
+/-- FULL on the stated fragment: the tokens the specification printer writes for a value derive
+— in the left-recursive CSS calc grammar — exactly that value (with a negative right operand of
+`+`/`-` read as the printer wrote it). -/
+theorem print_parses (v : V α) (hw : wfV v = true) (ha : assocFree v = true) :
+    Parses (vprec v) (toksV v) (signNorm v) := by
+  induction v with
+  | num x => exact .leaf _ rfl (by intro w h; cases h)
+  | var n => exact .leaf _ rfl (by intro w h; cases h)
+  | ident s => exact .leaf _ rfl (by intro w h; cases h)
+  | paren w ih =>
+    simp only [wfV, Bool.and_eq_true, Bool.not_eq_true'] at hw
+    simp only [assocFree] at ha
+    have := (ih hw.2 ha).liftTo (Nat.zero_le _) (vprec_le _)
+    exact .parenAtom _ _ this (by rw [isBin_signNorm]; exact hw.1)
+  | bin op a b iha ihb =>
+    simp only [wfV, Bool.and_eq_true] at hw
+    simp only [assocFree, Bool.and_eq_true] at ha
+    obtain ⟨⟨haa, hab⟩, hassoc⟩ := ha
+    have hl := left_parses op a (iha hw.1 haa)
+    have hb := ihb hw.2 hab
+    have hle := op_prec_le op
+    simp only [vprec]
+    cases b with
+    | num x =>
+      simp only [toksV, signNorm]
+      have hatom : ∀ y : Q α, Parses (op.prec + 1) [Tok.atom (V.num y)] (V.num y) := fun y =>
+        (Parses.leaf (V.num y) rfl (by intro w h; cases h)).liftTo (by omega) (Nat.le_refl _)
+      by_cases h1 : (isNeg x.v && decide (op = Op.plus)) = true
+      · have hop : op = .plus := by simp at h1; exact h1.2
+        subst hop
+        rw [if_pos h1, if_pos h1]
+        exact combine_parses (α := α) .minus _ _ _ _ hl (hatom ⟨neg x.v, x.u⟩)
+      · by_cases h2 : (isNeg x.v && decide (op = Op.minus)) = true
+        · have hop : op = .minus := by simp at h2; exact h2.2
+          subst hop
+          rw [if_neg h1, if_pos h2, if_neg h1, if_pos h2]
+          exact combine_parses (α := α) .plus _ _ _ _ hl (hatom ⟨neg x.v, x.u⟩)
+        · rw [if_neg h1, if_neg h2, if_neg h1, if_neg h2]
+          exact combine_parses op _ _ _ _ hl (hatom x)
+    | bin op2 x y =>
+      simp only [toksV, signNorm]
+      have hle2 := op_prec_le op2
+      by_cases hn : needR op op2 = true
+      · simp only [hn, if_true]
+        have hbb : isBin (signNorm (V.bin op2 x y)) = true := by rw [isBin_signNorm]; rfl
+        have hp := (Parses.parenBin _ _ (hb.liftTo (Nat.zero_le _) (vprec_le _)) hbb).liftTo
+          (show op.prec + 1 ≤ 2 by omega) (Nat.le_refl _)
+        exact combine_parses op _ _ _ _ hl hp
+      · simp only [hn]
+        have hgt : op.prec + 1 ≤ op2.prec := by
+          simp only [needR, Bool.or_eq_true, Bool.and_eq_true, decide_eq_true_eq] at hn
+          simp only [Bool.not_eq_true', Bool.and_eq_false_iff, Bool.or_eq_false_iff, decide_eq_false_iff_not] at hassoc
+          cases op <;> cases op2 <;> simp_all [Op.prec]
+        exact combine_parses op _ _ _ _ hl (hb.liftTo (by simpa [vprec] using hgt) (vprec_le _))
+    | var n =>
+      simp only [toksV, signNorm]
+      exact combine_parses op _ _ _ _ hl (hb.liftTo (by simp only [vprec]; omega) (Nat.le_refl _))
+    | ident s =>
+      simp only [toksV, signNorm]
+      exact combine_parses op _ _ _ _ hl (hb.liftTo (by simp only [vprec]; omega) (Nat.le_refl _))
+    | paren w =>
+      simp only [toksV, signNorm]
+      exact combine_parses op _ _ _ _ hl (hb.liftTo (by simp only [vprec]; omega) (Nat.le_refl _))
+
+/-- FULL on the stated fragment: an unsimplifiable calculation (no operator with two numeric
+operands) is emitted by the specification model as tokens that derive, in the CSS calc grammar,
+the source tree without its grouping parentheses. -/
+theorem calc_structure_preserved_text (showQ : Q α → String) (t : T α)
+    (h : pairFree t = true) (ha : assocFree (shape t) = true) :
+    evalC spec showQ t = .ok (shape t) ∧
+    Parses (vprec (shape t)) (toksV (shape t)) (signNorm (shape t)) :=
+  ⟨calc_structure_preserved showQ t h, print_parses (shape t) (wfV_shape t) ha⟩
+
+/-- the hypotheses are satisfiable: `(var(--x) + 1px) * 2` -/
+example : assocFree (shape (.bin .mul (.paren (.bin .plus (.var 0) (.num (⟨1, .px⟩ : Q Int)))) (.num ⟨2, .none⟩))) = true := by
+  decide +kernel
+
+end readback
 
 /-! ### satisfiability of the hypotheses, and refutations for the code as it is
 (exact `Int` carrier; the printed text re-reads to another calculation) -/
